@@ -271,6 +271,47 @@ def parseFreelist (v : VersionIf) : Nat → Nat → Py (List FreelistTrunk)
       pure (⟨number, next, leaves, pv⟩ :: rest)
     else pure [⟨number, next, leaves, pv⟩]
 
+/-- one iteration of the leaf loop of `parseFreelist` on the trunk page `page`: the `i`-th leaf
+pointer and `FreelistLeafPage.__init__` of the page it names -/
+def freelistLeafStep (v : VersionIf) (page : Buf) (acc : List Nat) (i : Nat) : Py (List Nat) := do
+  let n ← unpackAt page (i * Generated.FREELIST_LEAF_PAGE_NUMBER_LENGTH + Generated.FREELIST_HEADER_LENGTH)
+            Generated.FREELIST_LEAF_PAGE_NUMBER_LENGTH
+  let _ ← v.pageVersion n
+  let _ ← v.pageOffset n
+  let _ ← v.getData n 0 none
+  pure (acc ++ [n])
+
+/-- `parseFreelist` with a log that survives exceptions: for every trunk page whose construction
+was started, in order, its page number and the number of leaf-pointer steps started on it (the
+failing one included).  Erasing the log gives `parseFreelist` (Proofs/Cost.lean
+`parseFreelistLog_snd`). -/
+def parseFreelistLog (v : VersionIf) : Nat → Nat → List (Nat × Nat) × Py (List FreelistTrunk)
+  | 0, _ => ([], .error .recursionError)
+  | fuel+1, number =>
+    let head : Py (Nat × Buf × Nat × Nat) := do
+      let pv ← v.pageVersion number
+      let _ ← v.pageOffset number
+      let page ← v.getData number 0 none
+      let next ← unpackAt page 0 Generated.FREELIST_NEXT_TRUNK_PAGE_LENGTH
+      let cnt ← unpackAt page Generated.FREELIST_NEXT_TRUNK_PAGE_LENGTH Generated.FREELIST_LEAF_PAGE_POINTERS_LENGTH
+      pure (pv, page, next, cnt)
+    match head with
+    | .error e => ([(number, 0)], .error e)
+    | .ok (pv, page, next, cnt) =>
+      let bound := min cnt (v.pageSize / 4 + 1)
+      let r := foldlMCounted (freelistLeafStep v page) [] (List.range bound)
+      match r.2 with
+      | .error e => ([(number, r.1)], .error e)
+      | .ok leaves =>
+        if next ≠ 0 then
+          match v.pageVersion next with
+          | .error e => ([(number, r.1)], .error e)
+          | .ok _ =>
+            ((number, r.1) :: (parseFreelistLog v fuel next).1, do
+              let rest ← (parseFreelistLog v fuel next).2
+              pure (⟨number, next, leaves, pv⟩ :: rest))
+        else ([(number, r.1)], .ok [⟨number, next, leaves, pv⟩])
+
 /-! ### Pointer map -/
 
 structure PtrmapEntry where
@@ -348,6 +389,67 @@ def createPtrmapPages (v : VersionIf) (D : Nat) : Py (List PtrmapPage) := do
   let pages ← createPtrmapPagesLoop v D E (D + 1) 2 0 []
   let total := pages.foldl (fun s pg => s + 1 + pg.nEntries) 1
   if total ≠ D then .error .parseError else pure pages
+
+/-- one iteration of the entry loop of `parsePtrmapPage` -/
+def ptrmapEntryStep (v : VersionIf) (page : Buf) (number : Nat) (acc : List PtrmapEntry) (i : Nat) :
+    Py (List PtrmapEntry) :=
+  let off := i * Generated.POINTER_MAP_ENTRY_LENGTH
+  if off ≥ v.pageSize then (.error .parseError : Py (List PtrmapEntry))
+  else
+    let t := page.rd off
+    if t = 0 then .error .parseError
+    else if off + Generated.POINTER_MAP_ENTRY_LENGTH > v.pageSize then .error .parseError
+    else if t < 1 ∨ t > 5 then .error .parseError
+    else do
+      let parent ← unpackAt page (off + 1) 4
+      if (t = 1 ∨ t = 2) ∧ parent ≠ 0 then .error .parseError
+      else if (t = 3 ∨ t = 4 ∨ t = 5) ∧ parent = 0 then .error .parseError
+      else pure (acc ++ [⟨number + i + 1, t, parent⟩])
+
+/-- `parsePtrmapPage` with the number of entry steps started (the failing one included) -/
+def parsePtrmapPageCounted (v : VersionIf) (number nEntries : Nat) : Nat × Py PtrmapPage :=
+  let head : Py Buf := do
+    let _ ← v.pageVersion number
+    let _ ← v.pageOffset number
+    v.getData number 0 none
+  match head with
+  | .error e => (0, .error e)
+  | .ok page =>
+    let r := foldlMCounted (ptrmapEntryStep v page number) [] (List.range nEntries)
+    (r.1, do
+      let es ← r.2
+      pure ⟨number, nEntries, es⟩)
+
+/-- `createPtrmapPagesLoop` with a log that survives exceptions: for every pointer-map page whose
+construction was started, in order, its page number and the number of entry steps started on it -/
+def createPtrmapPagesLoopLog (v : VersionIf) (D E : Nat) :
+    Nat → Nat → Nat → List PtrmapPage → List (Nat × Nat) × Py (List PtrmapPage)
+  | 0, _, _, _ => ([], .error .recursionError)
+  | fuel+1, p, n, acc =>
+    if p < D then
+      let n' := n + 1
+      let next := n' * E + 2 + n'
+      let entries : Int := if next > D then (D : Int) - ((n' - 1) * E : Nat) - n' - 1 else E
+      if entries < 0 then ([], .error .parseError)
+      else
+        let r := parsePtrmapPageCounted v p entries.toNat
+        match r.2 with
+        | .error e => ([(p, r.1)], .error e)
+        | .ok pg =>
+          if next = D then ([(p, r.1)], .error .parseError)
+          else ((p, r.1) :: (createPtrmapPagesLoopLog v D E fuel next n' (acc ++ [pg])).1,
+                (createPtrmapPagesLoopLog v D E fuel next n' (acc ++ [pg])).2)
+    else ([], .ok acc)
+
+/-- `createPtrmapPages` with that log.  Erasing it gives `createPtrmapPages` (Proofs/Cost.lean
+`createPtrmapPagesLog_snd`). -/
+def createPtrmapPagesLog (v : VersionIf) (D : Nat) : List (Nat × Nat) × Py (List PtrmapPage) :=
+  let E := v.pageSize / Generated.POINTER_MAP_ENTRY_LENGTH
+  let r := createPtrmapPagesLoopLog v D E (D + 1) 2 0 []
+  (r.1, do
+    let pages ← r.2
+    let total := pages.foldl (fun s pg => s + 1 + pg.nEntries) 1
+    if total ≠ D then .error .parseError else pure pages)
 
 /-! ### Traversals of an already parsed tree (flat list in `get_pages_from_b_tree_page` order) -/
 
